@@ -364,7 +364,9 @@ func (w *world) step(ev *event) error {
 		w.dead = true
 		// Client.Close returns once the reader goroutine has finished its teardown
 		// (there is no other way to wait for it); the connection is gone anyway.
-		w.cl.Close()
+		if !vh.Within(3*time.Second, func() { w.cl.Close() }) {
+			return fmt.Errorf("Client.Close did not return within 3 s after the server closed the connection")
+		}
 	default:
 		return fmt.Errorf("unknown action %s", ev.Act)
 	}
@@ -462,7 +464,7 @@ func replay(beh []event) (*verdict, int, bool, error) {
 	if err != nil {
 		return nil, 0, false, err
 	}
-	defer func() { w.srv.Close(); w.cl.Close() }()
+	defer func() { w.srv.Close(); vh.Within(2*time.Second, func() { w.cl.Close() }) }()
 	seenDone := map[int]bool{}
 	nontrivial := false
 	for i := range beh {
